@@ -176,6 +176,16 @@ def apply(st: St, op: list) -> None:
         elif k == 'sdrop':
             st.solids[op[1]] = None
             gc.collect()
+        elif k == 'rebuild':
+            # a replacement brush assembled from the SAME Side objects (what brush-editing code does), put in the old one's
+            # place; the old Solid object is then forgotten.  The faces are still in the map, under the new brush.
+            old_s = st.solids[op[1]]
+            new_s = Solid(v0, sides=old_s.sides) if op[2] else Solid(v0, sides=list(old_s.sides))
+            old_s.remove()
+            v0.add_brush(new_s)
+            st.solids[op[1]] = new_s
+            del old_s
+            gc.collect()
         elif k == 'side_drop':
             # remove one face from a brush and forget it
             s = st.solids[op[1]]
@@ -406,6 +416,8 @@ class Model(bfs.Model):
                     ops.append(['side_drop', i])
                     ops.append(['side_add', i, -1])
                     ops.append(['side_add', i, 1])
+                    ops.append(['rebuild', i, True])
+                    ops.append(['rebuild', i, False])
                 else:
                     ops.append(['sadd', i])
                     ops.append(['sdrop', i])
